@@ -174,7 +174,7 @@ def e2e_job(job):
     r = stage.e2e(argv, files, keep_dir=with_I)
     res = {"rc": r["rc"], "error": r["error"], "exported": None, "stages": None}
     if r["events"] is not None:
-        res["exported"] = [(uid_of(e), {k: e["args"].get(k) for k in ("usr_note", "custom_top")})
+        res["exported"] = [(uid_of(e), {k: (e.get("args") or {}).get(k) for k in ("usr_note", "custom_top", "usr_args")})
                            for e in r["events"] if e.get("ph") == "X" and uid_of(e) is not None]
     if with_I and r.get("dir"):
         d = r["dir"]
